@@ -90,9 +90,9 @@ def tree_hash():
         h.update(b"\0")
         h.update(hashlib.sha256(data).digest())
     # the framework's own inputs that shape cached artefacts
-    for root in ("corpus",):
+    for root in ("corpus", "corpus_tc"):
         d = os.path.join(VERIF, root)
-        for name in sorted(os.listdir(d)):
+        for name in sorted(os.listdir(d)) if os.path.isdir(d) else []:
             with open(os.path.join(d, name), "rb") as fh:
                 h.update(name.encode() + b"\0" + hashlib.sha256(fh.read()).digest())
     for src in ("driver/src/main.rs", "analyzer/src/main.rs", "vlib/artifacts.py", "vlib/enumerator.py"):
